@@ -1314,7 +1314,8 @@ def m_index(it, args, callee, depth):
             n = len(tgt[1])
             kind = iv[1].rsplit("::", 1)[-1]
             lo, hi = {"Range": lambda: (iv[3][0], iv[3][1]), "RangeFrom": lambda: (iv[3][0], n), "RangeTo": lambda: (0, iv[3][0]),
-                      "RangeFull": lambda: (0, n), "RangeInclusive": lambda: (iv[3][0], iv[3][1] + 1)}.get(kind, lambda: (None, None))()
+                      "RangeFull": lambda: (0, n), "RangeInclusive": lambda: (iv[3][0], iv[3][1] + 1),
+                      "RangeToInclusive": lambda: (0, iv[3][0] + 1)}.get(kind, lambda: (None, None))()
             if lo is not None:
                 if lo > hi or hi > n:
                     raise Panic("slice index out of range")
